@@ -450,7 +450,7 @@ def gen_scenario(seed):
         sessions.append({'stmts': stmts, 'script': gen_script(rng, nst), 'cache_templates': rng.random() < 0.3, 'logs': rng.random() < 0.35, 'graft': rng.random() < 0.2})
     threads = rng.random() < 0.15
     spec = {'cmd': 'c12', 'property': PROP, 'seed': seed, 'hashseed': seed % 16, 'sessions': sessions, 'threads': threads,
-            'order_seed': rng.randrange(1 << 30), 'share_catalog': rng.random() < 0.5}
+            'order_seed': rng.randrange(1 << 30), 'share_catalog': rng.random() < 0.5, 'share_values': rng.random() < 0.4}
     if threads:
         spec['strategy'] = {'kind': 'bernoulli', 'p': rng.choice([0.002, 0.01, 0.03])}
         spec['sched_seed'] = rng.randrange(1 << 30)
@@ -495,6 +495,7 @@ class Session:
         self.obs = collections.Counter()
         self.pending_all = None
         self.templates = {}
+        self.shared_vals = None
 
     # -- model side
     def n(self):
@@ -662,6 +663,16 @@ class Session:
             if self.sdef.get('logs') and self.planner is not None and self.planner.query is not None:
                 str(self.planner.query), self.planner.query.to_tree()
             self.vals_obj = [v for v, _ in self.values()]
+            nxt = self.sdef['script'][self.pc] if self.pc < len(self.sdef['script']) else None
+            if self.shared_vals is not None and not (nxt and nxt[0] == 'M'):
+                # a caller that keeps ONE list object per distinct value list and hands it to every execute that needs these
+                # values (other statements, other sessions): what one execute does to its argument must not show in the next
+                key = repr(self.vals_obj)
+                self.vals_obj = self.shared_vals.setdefault(key, self.vals_obj)
+                want = [v for v, _ in self.values()]
+                if self.vals_obj != want or [type(x) for x in self.vals_obj] != [type(x) for x in want]:
+                    self.v('binding', 'the value list handed to an earlier execute_steps() was changed by it: %r instead of %r' % (self.vals_obj, want))
+                    self.vals_obj = want
             try:
                 self.gen = iter(self.planner.execute_steps(self.vals_obj))
                 self.log.append('X ok')
@@ -815,6 +826,10 @@ def run_child(spec):
         return lambda name: copy.deepcopy(CATALOGS[name])
 
     sessions = [Session(i, sd, cat_getter()) for i, sd in enumerate(spec['sessions'])]
+    if spec.get('share_values'):
+        pool_ = {}
+        for s_ in sessions:
+            s_.shared_vals = pool_
     order = []
     steps = 0
     if spec.get('threads'):
